@@ -16,6 +16,7 @@ CFG = dict(
     find_bad_from="Check.C05c.find_bad_from",
     go_tags="cl",
     rigs=[dict(test="TestC05Perm", timeout_quick=300, timeout_thorough=1500),
+          dict(test="TestC05Fault", timeout_quick=200, timeout_thorough=300),
           dict(test="TestC05Free", timeout_quick=300, timeout_thorough=900)],
     reason_text={"1": "the real client's observation differs from every outcome of the Gallina model (Model/Client.v, all orders of internal rules)",
                  "2": "ids: two calls share an id on the wire (or an id is 0 / a call wrote no first envelope)",
@@ -28,7 +29,11 @@ CFG = dict(
          "seed; thorough: all), k = 3 sampled (150 / 4000), one third with an envelope for a foreign id inserted; bodies encode (call, "
          "position) so that the routing predicates are evaluated on the observed returns; (b) free-running, real goroutine concurrency, "
          "real client + real server: 64 goroutines start 10^4 (thorough 10^5) calls (10% bidi streams) on one connection with seeded "
-         "yields at the verif hook points; ids of all first envelopes taken from the wire, (request, reply) recorded by every caller",
+         "yields at the verif hook points; ids of all first envelopes taken from the wire, (request, reply) recorded by every caller; one unary call in seven has an "
+         "already-ended context (its transport write fails cleanly while the others are in flight), one stream in three is aborted by "
+         "its handler while the client still sends; (c) TestC05Fault, in a bubble with a transport that holds writes: 1..2 unary calls "
+         "whose Write fails cleanly (context ends while the write waits / write error) while 1..3 later calls are in flight, then 1..2 new "
+         "calls; the peer answers every request it received with token + 1 under the request's id",
     assumptions=["payloads, metadata and methods are opaque tokens in the model",
                  "atomicity of atomic.AddUint64 is the Go runtime's; the 2^64 wrap of the id counter is an explicit hypothesis of C05_unique",
                  "quiescence = testing/synctest's durable blocking"],
